@@ -228,7 +228,14 @@ func report(id, tier string, seed int, cfg *Config, hdir string, results []*Entr
 			engineProblem = true
 			continue
 		}
-		if nr.Outcome == "assert" || nr.Outcome == "panic" {
+		engineOnly := false
+		if nr.Outcome != "assert" && nr.Outcome != "panic" && contains(cfg.EngineConfirmed, v.entry.Entry) {
+			if confirmInEngine(v, prog, tier) {
+				engineOnly = true
+				nr.Outcome = "engine-confirmed (kill -9 in mid-call cannot be replayed natively; the path was re-executed in the interpreter with all inputs pinned to the model)"
+			}
+		}
+		if nr.Outcome == "assert" || nr.Outcome == "panic" || engineOnly {
 			dir := persist(v, nr)
 			confirmed++
 			say("VIOLATION property=%s replay=%s", id, dir)
@@ -387,4 +394,51 @@ func humanModel(m map[string]sx.ModelVal) map[string]string {
 		}
 	}
 	return out
+}
+
+// confirmInEngine re-runs the harness with every input pinned to the model's
+// value and checks that the same assertion is violated again.
+func confirmInEngine(v *violation, prog *ssa.Program, tier string) bool {
+	old := v.entry.Explorer
+	fixed := map[string]string{}
+	for name, mv := range v.ob.Model {
+		switch mv.Kind {
+		case "int":
+			if strings.HasPrefix(mv.V, "-") {
+				fixed[name] = "(- " + mv.V[1:] + ")"
+			} else {
+				fixed[name] = mv.V
+			}
+		case "bool":
+			fixed[name] = mv.V
+		case "str":
+			var b []byte
+			fmt.Sscanf(mv.V, "%x", &b)
+			var sb strings.Builder
+			sb.WriteByte('"')
+			for _, c := range b {
+				if c == '"' {
+					sb.WriteString(`""`)
+				} else if c >= 0x20 && c < 0x7f && c != '\\' {
+					sb.WriteByte(c)
+				} else {
+					fmt.Fprintf(&sb, `\u{%x}`, c)
+				}
+			}
+			sb.WriteByte('"')
+			fixed[name] = sb.String()
+		}
+	}
+	ex := &sx.Explorer{Prog: prog, Hub: sx.NewSolverHub(), Harness: old.Harness, HarnessName: old.HarnessName,
+		Workers: 4, Unwind: old.Unwind, MaxSteps: old.MaxSteps, MaxPaths: 2000, TimeoutMs: old.TimeoutMs,
+		Seed: old.Seed, Tier: tier, Known: old.Known, Redirects: old.Redirects, Bounds: old.Bounds, MaxUnknown: 6, Fixed: fixed}
+	ex.Run()
+	for _, pr := range ex.Results {
+		for _, ob := range pr.Obls {
+			if ob.Status == "violated" && ob.Msg == v.ob.Msg && ob.Kind == v.ob.Kind {
+				return true
+			}
+		}
+	}
+	return false
 }
